@@ -13,6 +13,9 @@ import (
 	"github.com/zclconf/go-cty/cty/gocty"
 )
 
+var prevCv = map[string]cty.Value{}
+var prevInto = map[string]cty.Value{}
+
 func init() { register("gobridge", driveGoBridge) }
 
 type struct1 struct {
@@ -233,6 +236,32 @@ func driveGoBridge(c *Ctx) error {
 					default:
 						ev["back"] = J{"ok": true, "gv": projectGo(target.Elem(), gt)}
 					}
+					// the same decode into a target that already holds the result of an earlier decode
+					// (of the previous value of this Go type): the outcome must not depend on what the target held
+					tk := goVal.Type().String()
+					if prev, ok := prevCv[tk]; ok {
+						dirty := reflect.New(goVal.Type())
+						guard(func() { gocty.FromCtyValue(prev, dirty.Interface()) })
+						var kept reflect.Value
+						kept = reflect.New(goVal.Type())
+						kept.Elem().Set(dirty.Elem()) // what a caller kept from the earlier decode (shares slices / maps / pointers)
+						var k1 any
+						kp, _ := guard(func() { k1 = projectGo(kept.Elem(), gt) })
+						p, msg = guard(func() { err = gocty.FromCtyValue(cv, dirty.Interface()) })
+						switch {
+						case p:
+							ev["back2"] = failed("panic", trunc(msg))
+						case err != nil:
+							ev["back2"] = failed("error", trunc(err.Error()))
+						default:
+							ev["back2"] = J{"ok": true, "gv": projectGo(dirty.Elem(), gt)}
+						}
+						if !kp {
+							// the earlier result, as the caller still holds it, before and after the later decode
+							guard(func() { ev["kept"] = []any{k1, projectGo(kept.Elem(), gt)} })
+						}
+					}
+					prevCv[tk] = cv
 				}
 			}
 			c.Out.Emit(ev)
@@ -251,7 +280,33 @@ func driveGoBridge(c *Ctx) error {
 					case err != nil:
 						r = failed("error", trunc(err.Error()))
 					}
-					c.Out.Emit(J{"ev": "ginto", "v": Project(v), "gt": gt, "r": r})
+					ev := J{"ev": "ginto", "v": Project(v), "gt": gt, "r": r}
+					// the same decode into a target that already holds the result of the previous successful decode
+					// into this Go type: outcome and stored Go value must not depend on what the target held before
+					tk := target.Type().String()
+					if !p && err == nil {
+						guard(func() { ev["got"] = projectGo(target.Elem(), gt) })
+					}
+					if prev, ok := prevInto[tk]; ok {
+						dirty := reflect.New(goType(gt))
+						guard(func() { gocty.FromCtyValue(prev, dirty.Interface()) })
+						var err2 error
+						p2, msg2 := guard(func() { err2 = gocty.FromCtyValue(v, dirty.Interface()) })
+						r2 := J{"ok": true}
+						switch {
+						case p2:
+							r2 = failed("panic", trunc(msg2))
+						case err2 != nil:
+							r2 = failed("error", trunc(err2.Error()))
+						default:
+							guard(func() { r2["got"] = projectGo(dirty.Elem(), gt) })
+						}
+						ev["r2"] = r2
+					}
+					if !p && err == nil {
+						prevInto[tk] = v
+					}
+					c.Out.Emit(ev)
 				}
 			}
 		}
